@@ -281,6 +281,19 @@ def _rows_cols(code, el, even):
 
 
 def oracle_container(case):
+    """Policy of vp/containers.py: which containers an entry point ACCEPTS is not part of the property - a clean TypeError /
+    AttributeError / ValueError / NotImplementedError for an alternative container puts the case outside the domain
+    (counted as declined); an accepted container must give what its bit sequence demands (_oracle_container_body)."""
+    try:
+        _oracle_container_body(case)
+    except Fail as f:
+        if f.clause == "no_unexpected_exception" and str(f.observed).split(":")[0] in ("TypeError", "AttributeError", "ValueError", "NotImplementedError"):
+            case["_declined"] = True
+            return
+        raise
+
+
+def _oracle_container_body(case):
     """case = {code, msg, container[, even]}: the message (and the other accepted input forms, and the extractors' input) is
     handed over in another CONTAINER holding the same bit sequence.  Expected values come from the bit sequence (reference),
     never from the container.  Clause table = what the unchanged tree gets right (probed on /repo when this was written):
